@@ -50,7 +50,7 @@ Definition quoted_line (t : live) (c : e2ecase) (file : str) (line : Z) : option
   end.
 
 Definition status_class (k : errk) : Z :=
-  match k with ENode => 0 | ERuntime => 0 | _ => 1 end.
+  match k with ENode => 0 | ERuntime => 0 | ERecursion => 0 | _ => 1 end.
 
 Definition site_eqb (t : live) (c : e2ecase) (tok : option token) (site : option (str * Z * str)) : bool :=
   match tok, site with
